@@ -7,7 +7,10 @@ view of the state stack (`frames`: one `(model, hash, sat-flag)` per pushed stat
 and a validity predicate `Inv`.  Two further hypotheses are kept separate because they are
 about the *hash* and hold for the real solver only conditionally / by a finer argument:
 
-* `HashSound`  — equal cache keys ⇒ equal residual formulas (fails on `u128` wrap-around);
+* `HashSound`  — equal cache keys ⇒ equal residual formulas (fails on `u128` wrap-around; for the
+  real solver it holds of the NON-tautological clauses only, which is why `NewSpec` and
+  `compileTopdown_post` distinguish the clause list `cnf0` the solver is built on from the clause
+  list `cnf` the specification talks about);
 * `FreeDecide` — deciding an unassigned variable that does not occur in the residual formula
   propagates nothing and leaves hash and sat-flag unchanged.  This is what guarantees that a
   diagram put into the cache only tests variables of the residual, hence only variables that
@@ -22,12 +25,21 @@ structure Frame (κ : Type) where
   hash : κ
   sat : Bool
 
-/-- what `topdown_h` needs from the solver -/
+/-- what `topdown_h` needs from the solver.
+
+Three points are deliberately weak, because the real `SATSolver` does not satisfy more
+(witnesses in `Lemmas/UpSolverSpec.lean`): `decide` is only specified for the variables in `Var`
+(labels in range: the Rust code indexes vectors with the label); `pop` is only specified for a
+state above the two-frame stack of `SATSolver::new` (below it sits the dummy bottom state, on
+which the propagator is not a sound solver: unit clauses are not watched); and the clause list
+`cnf` of the specification need not be the one the solver was built on (see `NewSpec`). -/
 structure SolverSpec (cnf : Cnf) (S : Solver) where
   /-- validity of a concrete state (watch-list invariants etc.) -/
   Inv : S.σ → Prop
   /-- the state stack, top first -/
   frames : S.σ → List (Frame S.κ)
+  /-- the variables that may be decided (labels in range) -/
+  Var : Nat → Prop
   /-- the observers read the top frame -/
   obs_sat : ∀ s f rest, Inv s → frames s = f :: rest → S.isSat s = f.sat
   obs_hash : ∀ s f rest, Inv s → frames s = f :: rest → S.curHash s = f.hash
@@ -47,14 +59,14 @@ structure SolverSpec (cnf : Cnf) (S : Solver) where
   diff_complete : ∀ s f1 f0 rest, Inv s → frames s = f1 :: f0 :: rest →
     ∀ v b, f1.model v = some b → f0.model v = none → (⟨v, b⟩ : Lit) ∈ S.difference s
   /-- (b) `decide` = UNSAT: nothing is pushed, and no extension of model + literal is a model -/
-  decide_unsat : ∀ s f0 rest l, Inv s → frames s = f0 :: rest → f0.model l.var = none →
+  decide_unsat : ∀ s f0 rest l, Inv s → frames s = f0 :: rest → Var l.var → f0.model l.var = none →
     (S.decide s l).1 = .unsat →
     Inv (S.decide s l).2 ∧ frames (S.decide s l).2 = f0 :: rest ∧
     UnsatUnder cnf (f0.model.set l.var l.pol)
   /-- (a) `decide` ≠ UNSAT: one frame is pushed; its model extends model + literal; every newly
   assigned literal is entailed and (other than the decision) occurs in the residual formula;
   the result is SAT exactly when the new sat-flag is set -/
-  decide_ok : ∀ s f0 rest l, Inv s → frames s = f0 :: rest → f0.model l.var = none →
+  decide_ok : ∀ s f0 rest l, Inv s → frames s = f0 :: rest → Var l.var → f0.model l.var = none →
     (S.decide s l).1 ≠ .unsat →
     ∃ f1, Inv (S.decide s l).2 ∧ frames (S.decide s l).2 = f1 :: f0 :: rest ∧
       PExt (f0.model.set l.var l.pol) f1.model ∧
@@ -62,8 +74,8 @@ structure SolverSpec (cnf : Cnf) (S : Solver) where
         Entails cnf (f0.model.set l.var l.pol) ⟨v, b⟩) ∧
       (∀ v, f1.model v ≠ none → f0.model v = none → v = l.var ∨ InCnf (residual cnf f0.model) v) ∧
       ((S.decide s l).1 = .sat ↔ f1.sat = true)
-  /-- (e) `pop` removes the top frame and leaves a valid state -/
-  pop_ok : ∀ s f1 f0 rest, Inv s → frames s = f1 :: f0 :: rest →
+  /-- (e) `pop` of a state pushed by `decide` removes the top frame and leaves a valid state -/
+  pop_ok : ∀ s f1 f0 rest, Inv s → frames s = f1 :: f0 :: rest → rest ≠ [] →
     Inv (S.pop s) ∧ frames (S.pop s) = f0 :: rest
 
 variable {cnf : Cnf} {S : Solver}
@@ -83,12 +95,12 @@ def HashSound (spec : SolverSpec cnf S) : Prop :=
   ∀ s1 s2, spec.Inv s1 → spec.Inv s2 → S.curHash s1 = S.curHash s2 →
     residual cnf (spec.modelOf s1) = residual cnf (spec.modelOf s2)
 
-/-- ADDED hypothesis: deciding an unassigned variable that does not occur in the residual
+/-- ADDED hypothesis: deciding an unassigned variable (in range) that does not occur in the residual
 formula is never UNSAT, assigns only that variable, and keeps the hash and the sat-flag.
 Only required of states with at least two frames (the bottom frame of `SATSolver::new` is the
 empty model, which is not closed under unit propagation). -/
 def FreeDecide (spec : SolverSpec cnf S) : Prop :=
-  ∀ s f0 rest v b, spec.Inv s → spec.frames s = f0 :: rest → rest ≠ [] → f0.model v = none →
+  ∀ s f0 rest v b, spec.Inv s → spec.frames s = f0 :: rest → rest ≠ [] → spec.Var v → f0.model v = none →
     ¬ InCnf (residual cnf f0.model) v →
     (S.decide s ⟨v, b⟩).1 ≠ .unsat ∧
     ∀ f1 rest', spec.frames (S.decide s ⟨v, b⟩).2 = f1 :: rest' →
@@ -304,7 +316,8 @@ include hNS
 
 theorem branch_spec (recur : S.σ → Cache S.κ → NS.τ → HRes S NS) (v : Nat) (b : Bool)
     (s : S.σ) (cache : Cache S.κ) (t : NS.τ) (f0 : Frame S.κ) (rest : List (Frame S.κ))
-    (hI : spec.Inv s) (hfr : spec.frames s = f0 :: rest) (hv0 : f0.model v = none) (ht : inv t)
+    (hI : spec.Inv s) (hfr : spec.frames s = f0 :: rest) (hrest : rest ≠ []) (hvar : spec.Var v)
+    (hv0 : f0.model v = none) (ht : inv t)
     (hc : CacheOK spec cache)
     (hrec : ∀ s' c' t' f' rest', spec.Inv s' → spec.frames s' = f' :: rest' → rest' ≠ [] → inv t' →
       CacheOK spec c' → PExt (f0.model.set v b) f'.model → Post spec inv f' rest' (recur s' c' t')) :
@@ -313,8 +326,8 @@ theorem branch_spec (recur : S.σ → Cache S.κ → NS.τ → HRes S NS) (v : N
     spec.frames (branch S NS recur s cache t ⟨v, b⟩).2.1 = f0 :: rest ∧
     CacheOK spec (branch S NS recur s cache t ⟨v, b⟩).2.2.1 ∧
     inv (branch S NS recur s cache t ⟨v, b⟩).2.2.2 := by
-  have hun := spec.decide_unsat s f0 rest ⟨v, b⟩ hI hfr hv0
-  have hok := spec.decide_ok s f0 rest ⟨v, b⟩ hI hfr hv0
+  have hun := spec.decide_unsat s f0 rest ⟨v, b⟩ hI hfr hvar hv0
+  have hok := spec.decide_ok s f0 rest ⟨v, b⟩ hI hfr hvar hv0
   unfold branch
   generalize S.decide s ⟨v, b⟩ = d at hun hok ⊢
   obtain ⟨tag, s1⟩ := d
@@ -325,7 +338,7 @@ theorem branch_spec (recur : S.σ → Cache S.κ → NS.τ → HRes S NS) (v : N
     have hf1 : f1.sat = true := hsat.1 rfl
     have hsub : GoodM cnf f1.model .tru := GoodM.tru_of (spec.sat_sound s1 f1 _ hI1 hfr1 hf1)
     obtain ⟨hb, hi'⟩ := chain_correct spec hNS hI1 hfr1 hv0 hext hent hrel hsub ht
-    obtain ⟨hp1, hp2⟩ := spec.pop_ok s1 f1 f0 rest hI1 hfr1
+    obtain ⟨hp1, hp2⟩ := spec.pop_ok s1 f1 f0 rest hI1 hfr1 hrest
     exact ⟨hb, hp1, hp2, hc, hi'⟩
   · -- UNSAT
     obtain ⟨hI1, hfr1, huns⟩ := hun rfl
@@ -341,15 +354,15 @@ theorem branch_spec (recur : S.σ → Cache S.κ → NS.τ → HRes S NS) (v : N
     obtain ⟨hsub, hI2, hfr2, hc1, ht1⟩ := hp
     simp only at hsub hI2 hfr2 hc1 ht1 ⊢
     obtain ⟨hb, hi'⟩ := chain_correct spec hNS hI2 hfr2 hv0 hext hent hrel hsub ht1
-    obtain ⟨hp1, hp2⟩ := spec.pop_ok s2 f1 f0 rest hI2 hfr2
+    obtain ⟨hp1, hp2⟩ := spec.pop_ok s2 f1 f0 rest hI2 hfr2 hrest
     exact ⟨hb, hp1, hp2, hc1, hi'⟩
 
 omit hNS in
 /-- a decision on a variable outside the residual formula: `branch` is just the recursive call -/
 theorem branch_irrelevant (hfree : FreeDecide spec) (recur : S.σ → Cache S.κ → NS.τ → HRes S NS)
     (v : Nat) (b : Bool) (s : S.σ) (cache : Cache S.κ) (t : NS.τ) (f0 : Frame S.κ) (rest : List (Frame S.κ))
-    (hI : spec.Inv s) (hfr : spec.frames s = f0 :: rest) (hrest : rest ≠ []) (hv0 : f0.model v = none)
-    (hirr : ¬ InCnf (residual cnf f0.model) v) (hs0 : f0.sat = false)
+    (hI : spec.Inv s) (hfr : spec.frames s = f0 :: rest) (hrest : rest ≠ []) (hvar : spec.Var v)
+    (hv0 : f0.model v = none) (hirr : ¬ InCnf (residual cnf f0.model) v) (hs0 : f0.sat = false)
     (hrec : ∀ f', spec.Inv (S.decide s ⟨v, b⟩).2 → spec.frames (S.decide s ⟨v, b⟩).2 = f' :: f0 :: rest →
       f'.model = f0.model.set v b →
       spec.Inv (recur (S.decide s ⟨v, b⟩).2 cache t).2.1 ∧
@@ -359,8 +372,8 @@ theorem branch_irrelevant (hfree : FreeDecide spec) (recur : S.σ → Cache S.κ
       branch S NS recur s cache t ⟨v, b⟩ =
         ((recur (S.decide s ⟨v, b⟩).2 cache t).1, S.pop (recur (S.decide s ⟨v, b⟩).2 cache t).2.1,
          (recur (S.decide s ⟨v, b⟩).2 cache t).2.2.1, (recur (S.decide s ⟨v, b⟩).2 cache t).2.2.2) := by
-  obtain ⟨hne, hfd⟩ := hfree s f0 rest v b hI hfr hrest hv0 hirr
-  obtain ⟨f1, hI1, hfr1, _, _, _, hsat⟩ := spec.decide_ok s f0 rest ⟨v, b⟩ hI hfr hv0 hne
+  obtain ⟨hne, hfd⟩ := hfree s f0 rest v b hI hfr hrest hvar hv0 hirr
+  obtain ⟨f1, hI1, hfr1, _, _, _, hsat⟩ := spec.decide_ok s f0 rest ⟨v, b⟩ hI hfr hvar hv0 hne
   obtain ⟨hm, hh, hs⟩ := hfd f1 _ hfr1
   refine ⟨f1, hI1, hfr1, hm, hh, hs, ?_⟩
   have hnsat : (S.decide s ⟨v, b⟩).1 ≠ .sat := by
@@ -425,7 +438,8 @@ theorem decideNode_spec (hhash : HashSound spec) (hfree : FreeDecide spec) (rem 
     (s : S.σ) (cache : Cache S.κ) (t : NS.τ) (f0 : Frame S.κ) (rest : List (Frame S.κ))
     (hI : spec.Inv s) (hfr : spec.frames s = f0 :: rest) (hrest : rest ≠ []) (ht : inv t)
     (hc : CacheOK spec cache)
-    (hlev : ∀ i, i < level → f0.model (varAt i) ≠ none) (hv0 : f0.model (varAt level) = none)
+    (hlev : ∀ i, i < level → f0.model (varAt i) ≠ none) (hvar : spec.Var (varAt level))
+    (hv0 : f0.model (varAt level) = none)
     (hs0 : f0.sat = false) :
     Post spec inv f0 rest
       (decideNode S NS (fun s c t => topdownH S NS varAt rem (level + 1) s c t) (varAt level)
@@ -433,7 +447,7 @@ theorem decideNode_spec (hhash : HashSound spec) (hfree : FreeDecide spec) (rem 
   generalize hrecur : (fun s c t => topdownH S NS varAt rem (level + 1) s c t) = recur
   have hrec_eq : ∀ s c t, recur s c t = topdownH S NS varAt rem (level + 1) s c t := by
     intro s c t; rw [← hrecur]
-  generalize hv : varAt level = v at hv0 ⊢
+  generalize hv : varAt level = v at hv0 hvar ⊢
   -- the induction hypothesis in the form `branch_spec` wants
   have hrecB : ∀ b s' c' t' f' rest', spec.Inv s' → spec.frames s' = f' :: rest' → rest' ≠ [] → inv t' →
       CacheOK spec c' → PExt (f0.model.set v b) f'.model → Post spec inv f' rest' (recur s' c' t') := by
@@ -452,9 +466,9 @@ theorem decideNode_spec (hhash : HashSound spec) (hfree : FreeDecide spec) (rem 
         exact absurd hm (hlev i this)
       | some c => rw [h5 (varAt i) c (by simp [PModel.set, e, hm])]; simp
   obtain ⟨hb1, hI1, hfr1, hc1, ht1⟩ :=
-    branch_spec spec hNS recur v true s cache t f0 rest hI hfr hv0 ht hc (hrecB true)
+    branch_spec spec hNS recur v true s cache t f0 rest hI hfr hrest hvar hv0 ht hc (hrecB true)
   obtain ⟨hb2, hI2, hfr2, hc2, ht2⟩ :=
-    branch_spec spec hNS recur v false _ _ _ f0 rest hI1 hfr1 hv0 ht1 hc1 (hrecB false)
+    branch_spec spec hNS recur v false _ _ _ f0 rest hI1 hfr1 hrest hvar hv0 ht1 hc1 (hrecB false)
   change BranchGood cnf f0.model v true (brHi recur v s cache t).1 at hb1
   change BranchGood cnf f0.model v false (brLo recur v s cache t).1 at hb2
   change spec.Inv (brLo recur v s cache t).2.1 at hI2
@@ -474,7 +488,7 @@ theorem decideNode_spec (hhash : HashSound spec) (hfree : FreeDecide spec) (rem 
         apply e
         -- both branches are the recursive call; the second one hits the cache entry of the first
         obtain ⟨f1, hIa, hfra, hma, hha, hsa, hbra⟩ :=
-          branch_irrelevant spec hfree recur v true s cache t f0 rest hI hfr hrest hv0 hirr hs0
+          branch_irrelevant spec hfree recur v true s cache t f0 rest hI hfr hrest hvar hv0 hirr hs0
             (by
               intro f' h1 h2 h3
               have := hrecB true _ cache t f' (f0 :: rest) h1 h2 (List.cons_ne_nil _ _) ht hc
@@ -483,7 +497,7 @@ theorem decideNode_spec (hhash : HashSound spec) (hfree : FreeDecide spec) (rem 
         have hbr1 : brHi recur v s cache t = _ := hbra
         obtain ⟨f1', hIb, hfrb, hmb, hhb, hsb, hbrb⟩ :=
           branch_irrelevant spec hfree recur v false (brHi recur v s cache t).2.1
-            (brHi recur v s cache t).2.2.1 (brHi recur v s cache t).2.2.2 f0 rest hI1 hfr1 hrest hv0 hirr hs0
+            (brHi recur v s cache t).2.2.1 (brHi recur v s cache t).2.2.2 f0 rest hI1 hfr1 hrest hvar hv0 hirr hs0
             (by
               intro f' h1 h2 h3
               have := hrecB false _ _ _ f' (f0 :: rest) h1 h2 (List.cons_ne_nil _ _) ht1 hc1
@@ -518,11 +532,12 @@ theorem decideNode_spec (hhash : HashSound spec) (hfree : FreeDecide spec) (rem 
 
 /-- **correctness of `topdown_h`** (any node store satisfying the contract, any solver satisfying
 the specification, the two hash hypotheses): called at `level` on a valid state whose model
-assigns all variables of earlier levels, with a sound cache, it returns a diagram that agrees
+assigns all variables of earlier levels (the order maps the levels into the decidable variables), with a sound cache, it returns a diagram that agrees
 with the CNF on every extension of the current model, is free, tests only variables of the
 residual formula; the solver stack is as before; the cache is still sound. -/
 theorem topdownH_post (hhash : HashSound spec) (hfree : FreeDecide spec) (numVars : Nat)
-    (hvarAt : ∀ v, InCnf cnf v → ∃ i, i < numVars ∧ varAt i = v) :
+    (hvarAt : ∀ v, InCnf cnf v → ∃ i, i < numVars ∧ varAt i = v)
+    (hrange : ∀ i, i < numVars → spec.Var (varAt i)) :
     ∀ (rem level : Nat) (s : S.σ) (cache : Cache S.κ) (t : NS.τ) (f0 : Frame S.κ) (rest : List (Frame S.κ)),
       level + rem = numVars → spec.Inv s → spec.frames s = f0 :: rest → rest ≠ [] → inv t →
       CacheOK spec cache →
@@ -536,7 +551,7 @@ theorem topdownH_post (hhash : HashSound spec) (hfree : FreeDecide spec) (numVar
     rw [← e]; exact hlev i (by omega)
   | rem + 1, level, s, cache, t, f0, rest, hl, hI, hfr, hrest, ht, hc, hlev => by
     have IH := fun s cache t f0 rest h1 h2 h2' h3 h4 h5 =>
-      topdownH_post hhash hfree numVars hvarAt rem (level + 1) s cache t f0 rest (by omega) h1 h2 h2' h3 h4 h5
+      topdownH_post hhash hfree numVars hvarAt hrange rem (level + 1) s cache t f0 rest (by omega) h1 h2 h2' h3 h4 h5
     rw [topdownH_succ]
     by_cases hsat : S.isSat s = true
     · rw [if_pos hsat]
@@ -563,6 +578,7 @@ theorem topdownH_post (hhash : HashSound spec) (hfree : FreeDecide spec) (numVar
         | none =>
           simp only
           apply decideNode_spec spec hNS varAt hhash hfree rem level IH s cache t f0 rest hI hfr hrest ht hc hlev
+            (hrange level (by omega))
           · rw [spec.obs_set s f0 rest hI hfr] at hset
             cases hm : f0.model (varAt level) with
             | none => rfl
@@ -577,10 +593,12 @@ end
 /-! ## `compile_cnf_topdown` -/
 
 /-- what `SATSolver::new` has to satisfy: `None` only for unsatisfiable formulas; otherwise a
-valid two-frame stack, the lower model empty, the upper one consisting of entailed literals -/
-structure NewSpec (spec : SolverSpec cnf S) (numVars : Nat) : Prop where
-  none_unsat : S.new cnf numVars = none → ∀ a, cnfSat a cnf = false
-  some_ok : ∀ s, S.new cnf numVars = some s → ∃ f1 f0, spec.Inv s ∧ spec.frames s = [f1, f0] ∧
+valid two-frame stack, the lower model empty, the upper one consisting of entailed literals.
+The solver is built on `cnf0`; the specification is about `cnf` (for the reference solver the
+two are the same; for the real solver `cnf` is the non-tautological part of `cnf0`). -/
+structure NewSpec (spec : SolverSpec cnf S) (cnf0 : Cnf) (numVars : Nat) : Prop where
+  none_unsat : S.new cnf0 numVars = none → ∀ a, cnfSat a cnf = false
+  some_ok : ∀ s, S.new cnf0 numVars = some s → ∃ f1 f0, spec.Inv s ∧ spec.frames s = [f1, f0] ∧
     (∀ v, f0.model v = none) ∧ ∀ v b, f1.model v = some b → ∀ a, cnfSat a cnf = true → a v = b
 
 section
@@ -588,23 +606,25 @@ variable (spec : SolverSpec cnf S) {NS : NodeStore} {inv : NS.τ → Prop} (hNS 
   (varAt : Nat → Nat)
 include hNS
 
-/-- **correctness of `compile_cnf_topdown`** (as repaired): the result denotes the CNF on ALL
+/-- **correctness of `compile_cnf_topdown`** (as repaired; solver built on `cnf0`, specification
+about `cnf`): the result denotes the CNF on ALL
 assignments, is free, and is the false constant exactly when the CNF is unsatisfiable -/
-theorem compileTopdown_post (hhash : HashSound spec) (hfree : FreeDecide spec) (numVars : Nat)
-    (hnew : NewSpec spec numVars)
-    (hvarAt : ∀ v, InCnf cnf v → ∃ i, i < numVars ∧ varAt i = v) (t : NS.τ) (ht : inv t) :
-    (∀ a, (compileTopdown S NS varAt cnf numVars t).1.eval a = cnfSat a cnf) ∧
-    (compileTopdown S NS varAt cnf numVars t).1.free ∧
-    ((compileTopdown S NS varAt cnf numVars t).1 = .fls ↔ ∀ a, cnfSat a cnf = false) ∧
-    inv (compileTopdown S NS varAt cnf numVars t).2 := by
+theorem compileTopdown_post (hhash : HashSound spec) (hfree : FreeDecide spec) (cnf0 : Cnf) (numVars : Nat)
+    (hnew : NewSpec spec cnf0 numVars)
+    (hvarAt : ∀ v, InCnf cnf v → ∃ i, i < numVars ∧ varAt i = v)
+    (hrange : ∀ i, i < numVars → spec.Var (varAt i)) (t : NS.τ) (ht : inv t) :
+    (∀ a, (compileTopdown S NS varAt cnf0 numVars t).1.eval a = cnfSat a cnf) ∧
+    (compileTopdown S NS varAt cnf0 numVars t).1.free ∧
+    ((compileTopdown S NS varAt cnf0 numVars t).1 = .fls ↔ ∀ a, cnfSat a cnf = false) ∧
+    inv (compileTopdown S NS varAt cnf0 numVars t).2 := by
   unfold compileTopdown
-  cases hn : S.new cnf numVars with
+  cases hn : S.new cnf0 numVars with
   | none =>
     have := hnew.none_unsat hn
     exact ⟨fun a => (this a).symm, trivial, ⟨fun _ => this, fun _ => rfl⟩, ht⟩
   | some s =>
     obtain ⟨f1, f0, hI, hfr, hf0, hent⟩ := hnew.some_ok s hn
-    have hp := topdownH_post spec hNS varAt hhash hfree numVars hvarAt numVars 0 s [] t f1 [f0]
+    have hp := topdownH_post spec hNS varAt hhash hfree numVars hvarAt hrange numVars 0 s [] t f1 [f0]
       (by omega) hI hfr (List.cons_ne_nil _ _) ht (CacheOK_nil spec) (fun i hi => absurd hi (Nat.not_lt_zero i))
     simp only
     generalize topdownH S NS varAt numVars 0 s [] t = res at hp ⊢
